@@ -142,6 +142,9 @@ pub fn gen_str(rng: &mut Rng, minimal: bool) -> Wire {
 pub fn gen_key(rng: &mut Rng, i: usize, dup: bool) -> Wire {
     let mut s = if dup && rng.chance(30) { format!("k{}", rng.below(3)) } else { format!("k{}", i) }.into_bytes();
     if rng.chance(10) { s = vec![b'x'; [0usize, 31, 32, 40][rng.below(4) as usize]]; s.extend(format!("{}", i).bytes()); }
+    // the shortest legal keys: the empty string (at most once per map) and single bytes -- "tight" entries of 2-3 bytes
+    else if i == 0 && rng.chance(15) { s = vec![]; }
+    else if i >= 1 && i < 27 && rng.chance(15) { s = vec![b'A' + (i as u8 - 1)]; }
     let l = s.len();
     Wire::Str(str_fmt(rng, l, false), s)
 }
